@@ -249,6 +249,64 @@ def generated(seed, n, tag="gen"):
     return [{"origin": f"{tag}:{seed}:{i}", "text": g.program()} for i in range(n)]
 
 
+def sign_mutants(text, rng, n=30):
+    """variants of a program with the sign of one or two symbolic body / condition literals toggled
+    (used by the failing-input search around a disagreeing input)"""
+    from clingo.ast import ASTType, Sign, Transformer
+    prg = try_parse(text)
+    if prg is None:
+        return []
+
+    class Count(Transformer):
+        def __init__(self):
+            self.n = 0
+
+        def visit_Literal(self, lit):
+            if lit.atom.ast_type == ASTType.SymbolicAtom:
+                self.n += 1
+            return lit.update(**self.visit_children(lit))
+
+    class Toggle(Transformer):
+        def __init__(self, which):
+            self.i = 0
+            self.which = which
+
+        def visit_Literal(self, lit):
+            lit = lit.update(**self.visit_children(lit))
+            if lit.atom.ast_type == ASTType.SymbolicAtom:
+                k = self.i
+                self.i += 1
+                if k in self.which:
+                    return lit.update(sign=Sign.Negation if lit.sign == Sign.NoSign else Sign.NoSign)
+            return lit
+
+    out = []
+    seen = set()
+    for _ in range(n * 3):
+        new = []
+        ok = True
+        for st in prg:
+            if st.ast_type not in (ASTType.Rule, ASTType.Minimize) or not st.body:
+                new.append(st)
+                continue
+            c = Count()
+            for b in st.body:
+                c.visit(b)
+            if c.n == 0 or rng.random() < 0.5:
+                new.append(st)
+                continue
+            which = set(rng.sample(range(c.n), min(c.n, rng.choice([1, 1, 2]))))
+            t = Toggle(which)
+            new.append(st.update(body=[t.visit(b) for b in st.body]))
+        txt = "\n".join(str(x) for x in new)
+        if txt not in seen and try_parse(txt) is not None:
+            seen.add(txt)
+            out.append(txt)
+        if len(out) >= n:
+            break
+    return out
+
+
 def generated_iter(seed, tag="search"):
     rng = random.Random(seed)
     g = Gen(rng)
